@@ -41,7 +41,7 @@ def plan(tier):
                 'observation with the twins "k requests applied"; a cell is (operation, position, crash class, outcome)'
                 % len(OPS),
         'min_monitor': {'full_observations': 300, 'crash_points': 1500, 'deaths_confirmed': 1500, 'recoveries_compared': 1500,
-                        'acks_verified': 300, 'outcome_applied': 50, 'outcome_absent': 200},
+                        'acks_verified': 300, 'outcome_applied': 50, 'outcome_absent': 200, 'startup_deaths': 60},
         'assumptions': ['death inside a syscall, torn writes and power loss cannot be produced here',
                         'server-generated key bytes are masked when observations are compared',
                         'rows orphaned in child tables by a completed Destroy are not observable and not asserted'],
@@ -56,6 +56,8 @@ def cases(tier, seed):
             cs.append({'op': op, 'pos': pos, 'cls': 'line'})
     n = 6 if tier == 'quick' else 48
     cs += [{'kill': i} for i in range(n)]
+    # death while the server starts: on a database file that does not exist yet, on an empty file, on a store in use
+    cs += [{'startup': 'fresh'}, {'startup': 'empty-file'}, {'startup': 'existing'}]
     if tier != 'quick':
         for op in OPS:
             for pos in (0, 1):
@@ -381,6 +383,8 @@ def run_case(ctx, case):
     rig.install_clock(rig.VClock(step=0))
     if 'kill' in case:
         return run_kill(ctx, case, rng)
+    if 'startup' in case:
+        return run_startup(ctx, case, rng)
     with rig.scratch_dir() as d:
         base = d + '/base.sqlite'
         env = prepare(base, rng)
@@ -463,6 +467,189 @@ def run_case(ctx, case):
             judge(ctx, case, work, acks, twins, main_index, base_max, k, total)
         ctx.sample({'operation': case['op'], 'position': case['pos'], 'class': case['cls'], 'events': total,
                     'crash_points_tried': len(ks)})
+
+
+def battery(path):
+    """What a client can do with a freshly started server: one creation of every kind, a listing and reads.  Returns the
+    list of outcomes (operation, result) - every one of them a success on a sound store."""
+    srv = rig.Server(path)
+    out = []
+    try:
+        reqs = [('create', [op_create(names=['bat-create'])]),
+                ('create_key_pair', [op_create_key_pair()]),
+                ('register_sym', [op_register('sym', secret_sym(b'K' * 32), sym_attrs(length=256, masks=ALL_MASKS, names=['bat-sym'],
+                                                                                     groups=['bat-g'], asi=[('bat-ns', 'bat-d')]))]),
+                ('register_cert', [op_register('cert', secret_cert(b'CERT' * 8), common_attrs(names=['bat-cert']))]),
+                ('register_opaque', [op_register('opaque', secret_opaque(b'OPAQUE'), common_attrs(names=['bat-opaque']))]),
+                ('register_secret', [op_register('secret', secret_data(b'SECRET'), common_attrs(names=['bat-secret']))]),
+                ('register_split', [op_register('split', secret_split(b'S' * 16), common_attrs(names=['bat-split']))]),
+                ('register_priv', [op_register('priv', secret_private(b'P' * 40), common_attrs(names=['bat-priv']))]),
+                ('register_pub', [op_register('pub', secret_public(b'Q' * 40), common_attrs(names=['bat-pub']))]),
+                ('locate', [op_locate()])]
+        made = []
+        for name, ops in reqs:
+            try:
+                r = srv.send(ops, OWNER, (1, 2))
+            except Exception as e:
+                out.append((name, 'raised %s' % type(e).__name__))
+                continue
+            if r.error is not None:
+                out.append((name, 'raised %s: %s' % (type(r.error).__name__, str(r.error)[:80])))
+                continue
+            out.append((name, r.brief()[0][0]))
+            if r.ok() and name != 'locate':
+                made += [k[2] for k in r.payload()[2] if k[1] == T.TEXT]
+        for u in made[:12]:
+            for name, op in (('get', op_get(u)), ('get_attributes', op_get_attributes(u))):
+                r = srv.send([op], OWNER, (1, 4))
+                out.append((name, 'raised' if r.error is not None else r.brief()[0][0]))
+        if made:
+            r = srv.send([op_destroy(made[0])], OWNER, (1, 2))
+            out.append(('destroy', 'raised' if r.error is not None else r.brief()[0][0]))
+    finally:
+        srv.close()
+    return out
+
+
+def startup_child(path, k, wfd):
+    """Forked child: a server process starting on `path` (the engine constructor creates or checks the schema), then
+    serving one request; dies at the k-th SQL event of any SQLAlchemy engine in the process."""
+    try:
+        import logging
+        logging.disable(logging.CRITICAL)
+        count = [0]
+
+        def tick(*a, **kw):
+            count[0] += 1
+            if count[0] == k:
+                os._exit(17)
+        ev = sqlalchemy.event
+        ev.listen(sqlalchemy.engine.Engine, 'before_cursor_execute', tick)
+        ev.listen(sqlalchemy.engine.Engine, 'after_cursor_execute', tick)
+        ev.listen(sqlalchemy.engine.Engine, 'commit', tick)
+        srv = rig.Server(path)
+        os.write(wfd, b'STARTED\n')
+        r = srv.send([op_create(names=['first-request'])], OWNER, (1, 2))
+        os.write(wfd, ('ACK 0 %s\n' % ('S' if (r.error is None and r.ok()) else 'F')).encode())
+        os.write(wfd, ('DONE %d\n' % count[0]).encode())
+    except BaseException as e:   # noqa
+        try:
+            os.write(wfd, ('CHILD-ERROR %s %s\n' % (type(e).__name__, str(e)[:200])).encode())
+        except Exception:
+            pass
+    finally:
+        os._exit(0)
+
+
+def run_startup(ctx, case, rng):
+    """Death at every SQL statement / commit boundary while the server starts (schema creation on a new file; schema
+    check on a store in use) and serves its first request.  After a restart on the same file the server must open,
+    everything a sound store answers with success must succeed, and a store in use must show all its objects."""
+    kind = case['startup']
+    with rig.scratch_dir() as d:
+        base = d + '/base.sqlite'
+        env, base_max, twin_obs = None, 0, None
+        if kind == 'existing':
+            env = prepare(base, rng)
+            base_max = max(int(u) for u in env.values())
+            tw = d + '/twin.sqlite'
+            shutil.copyfile(base, tw)
+            twin_obs, p0 = observe(tw, base_max)
+            if twin_obs is None or p0:
+                ctx.unsure('twin observation failed for the start-up class: %s' % p0)
+                return
+        elif kind == 'empty-file':
+            open(base, 'wb').close()
+
+        def fresh_work():
+            work = d + '/work.sqlite'
+            for suffix in ('', '-journal', '-wal', '-shm'):
+                if os.path.exists(work + suffix):
+                    os.unlink(work + suffix)
+            if os.path.exists(base):
+                shutil.copyfile(base, work)
+            return work
+
+        def run_child(k):
+            work = fresh_work()
+            rfd, wfd = os.pipe()
+            pid = os.fork()
+            if pid == 0:
+                os.close(rfd)
+                startup_child(work, k, wfd)
+            os.close(wfd)
+            data = b''
+            while True:
+                chunk = os.read(rfd, 65536)
+                if not chunk:
+                    break
+                data += chunk
+            os.close(rfd)
+            _, status = os.waitpid(pid, 0)
+            return work, data.decode(), os.waitstatus_to_exitcode(status)
+        # reference: what the battery answers on a store that never saw a crash
+        work, out, code = run_child(-1)
+        total = None
+        for line in out.splitlines():
+            if line.startswith('DONE'):
+                total = int(line.split()[1])
+        if total is None:
+            ctx.unsure('dry run of the start-up class failed: %r' % out[-300:])
+            return
+        ref = battery(work)
+        if any(res != 'SUCCESS' for _, res in ref):
+            ctx.unsure('the battery does not succeed on a store that never saw a crash: %s' % [x for x in ref if x[1] != 'SUCCESS'][:3])
+            return
+        ctx.count('events_startup_total', total)
+        for k in range(1, total + 1):
+            work, out, code = run_child(k)
+            ctx.ev()
+            ctx.count('crash_points')
+            if code != 17:
+                ctx.count('crash_point_not_reached')
+                continue
+            ctx.count('deaths_confirmed')
+            ctx.count('startup_deaths')
+            started = 'STARTED' in out
+            acked = 'ACK 0 S' in out
+            detail = {'case': case, 'k': k, 'of': total, 'started': started, 'acknowledged_first_request': acked}
+            key = 'startup:%s|sql|' % kind
+            if twin_obs is not None or acked:
+                try:
+                    rec, problems = observe(work, base_max)
+                except Exception as e:
+                    rec, problems = None, ['observation raised %s: %s' % (type(e).__name__, e)]
+                if rec is None or problems:
+                    ctx.violation(key + 'unreadable', 'after death at SQL event %d/%d of a server start the store cannot be fully read: %s'
+                                  % (k, total, (problems or ['?'])[:3]), detail)
+                    ctx.cell('startup', kind, 'unreadable')
+                    continue
+                if twin_obs is not None:
+                    missing = [u for u in twin_obs['objects'] if rec['objects'].get(u) != twin_obs['objects'][u]]
+                    if missing:
+                        ctx.violation(key + 'lost-ack', 'after death during a restart, objects stored before differ or are missing: %s'
+                                      % missing[:5], detail)
+                        continue
+                if acked:
+                    ctx.count('acks_verified')
+                    if not any('first-request' in str(v) for v in rec['raw'].get('managed_object_names', [])):
+                        ctx.violation(key + 'lost-ack', 'the first request was acknowledged before the death and is not in the store', detail)
+                        continue
+            try:
+                got = battery(work)
+            except Exception as e:
+                got = [('open', 'raised %s: %s' % (type(e).__name__, str(e)[:120]))]
+            ctx.count('recoveries_compared')
+            ctx.count('full_observations')
+            bad = [x for x in got if x[1] != 'SUCCESS']
+            if bad or len(got) != len(ref):
+                ctx.violation(key + 'unusable', 'after death at SQL event %d/%d of a server start (%s) and a restart on the same file the '
+                              'server does not work as on a sound store: %s' % (k, total, 'schema complete' if started else 'inside the constructor', bad[:4]), detail)
+                ctx.cell('startup', kind, 'unusable')
+            else:
+                ctx.count('outcome_absent' if not acked else 'outcome_applied')
+                ctx.cell('startup', kind, 'sound', 'started' if started else 'constructor')
+        ctx.sample({'startup': kind, 'sql_events': total})
 
 
 def run_kill(ctx, case, rng):
